@@ -53,3 +53,16 @@ func (fl *fieldList) get(name string) (f *FieldDef) {
 	}
 	return
 }
+
+// dup makes a copy of the list that does not share the dict and the slice
+// with the original.
+func (fl *fieldList) dup() fieldList {
+	d := fieldList{list: append([]*FieldDef{}, fl.list...)}
+	if fl.dict != nil {
+		d.dict = make(map[string]*FieldDef, len(fl.dict))
+		for k, v := range fl.dict {
+			d.dict[k] = v
+		}
+	}
+	return d
+}
